@@ -2,13 +2,20 @@
 use crate::util::rng::Rng;
 use crate::util::run::{CaseOut, Ctx, Summary};
 
+pub mod c03;
 pub mod c06;
 pub mod c07;
 pub mod c08a;
+pub mod c08bc;
+pub mod c09;
+pub mod c10;
 pub mod c11;
+pub mod c12;
 pub mod c14;
 pub mod c15;
 pub mod c16;
+pub mod c18;
+pub mod c19;
 pub mod c20;
 pub mod tcp_pair;
 pub mod tcp_peer;
@@ -31,7 +38,7 @@ pub struct Monitor {
 }
 
 pub fn all() -> Vec<Monitor> {
-    vec![tcp_pair::monitor_c01(), tcp_pair::monitor_c02(), tcp_peer::monitor_c04(), c05(), tcp_peer::monitor_c17(), c06::monitor(), c07::monitor(), c08(), c11::monitor(), tcp_pair::monitor_c13(), c14::monitor(), c15::monitor(), c16::monitor(), c20::monitor()]
+    vec![tcp_pair::monitor_c01(), tcp_pair::monitor_c02(), tcp_peer::monitor_c04(), c05(), tcp_peer::monitor_c17(), c06::monitor(), c07::monitor(), c08(), c11::monitor(), tcp_pair::monitor_c13(), c14::monitor(), c15::monitor(), c16::monitor(), c20::monitor(), c03::monitor(), c09::monitor(), c10::monitor(), c12::monitor(), c18::monitor(), c19::monitor(), c08bc::monitor()]
 }
 
 /// C08: checksum routine vs. reference (c08a) [+ emitted-valid and enforced parts when built]
